@@ -21,3 +21,32 @@ def all():
             errs.append("%s: %s" % (name, e))
             log("[regen] %s FAILED: %s" % (name, e))
     return errs
+
+
+# ---------------------------------------------------------------- C19: route tables, middleware stacks, read-only gate
+
+@register("routes")
+def routes():
+    """extract/routes (go/ast) -> lean/Generated/Routes.lean (+ build/routes.json for the evidence).
+    The old file is removed first: a failing extractor leaves NO table behind, so nothing is proved about a stale one."""
+    import subprocess
+    from .common import VERIF, REPO, BUILD, GOENV
+    out = os.path.join(LEAN, "Generated", "Routes.lean")
+    summary = os.path.join(BUILD, "routes.json")
+    for f in (out, summary):
+        if os.path.exists(f):
+            os.remove(f)
+    os.makedirs(BUILD, exist_ok=True)
+    src = os.path.join(VERIF, "extract", "routes")
+    binary = os.path.join(BUILD, "extract-routes")
+    if os.path.exists(binary):
+        os.remove(binary)
+    p = subprocess.run(["go", "build", "-o", binary, "."], cwd=src, env=GOENV, capture_output=True, text=True, timeout=600)
+    if p.returncode != 0:
+        return "go build extract/routes failed: " + p.stderr[-1500:]
+    p = subprocess.run([binary, "-repo", REPO, "-out", out, "-json", summary], capture_output=True, text=True, timeout=600)
+    if p.returncode != 0:
+        if os.path.exists(out):
+            os.remove(out)
+        return (p.stderr.strip() or "extract-routes failed")[-1500:]
+    return None
